@@ -136,28 +136,29 @@ type openApp struct {
 }
 
 type runner struct {
-	d        *tsdbx.DB
-	n        int
-	opt      tsdbx.Options
-	oooCap   int64
-	apps     map[int]*openApp
-	nextApp  int
-	now      int64
-	sentMax  map[int]int64 // per series: highest timestamp ever sent
-	owner    map[int]int   // per series: the open appender that has appended to it (generator constraint, see notes)
-	hcount   int64
-	steps    []string
-	descs    []hop
-	classes  map[string]int
-	shapes   map[string]bool
-	goViol   []string
-	stopped  bool
-	restarts int
-	created  map[int]int // per series index: memSeries created through appenders so far
-	dupRefs  bool        // some label set has had two refs
-	lastWalk string
-	info     []string
-	haveWalk bool
+	d         *tsdbx.DB
+	n         int
+	opt       tsdbx.Options
+	oooCap    int64
+	apps      map[int]*openApp
+	nextApp   int
+	now       int64
+	sentMax   map[int]int64 // per series: highest timestamp ever sent
+	owner     map[int]int   // per series: the open appender that has appended to it (generator constraint, see notes)
+	hcount    int64
+	steps     []string
+	descs     []hop
+	classes   map[string]int
+	shapes    map[string]bool
+	goViol    []string
+	stopped   bool
+	restarts  int
+	created   map[int]int // per series index: memSeries created through appenders so far
+	dupRefs   bool        // some label set has had two refs
+	lastWalk  string
+	gaugeSeen int64 // gauge histograms accepted by appenders so far
+	info      []string
+	haveWalk  bool
 }
 
 type walkT struct {
@@ -453,6 +454,9 @@ func (r *runner) doAppend(o hop) {
 		a.touched = append(a.touched, uint64(ref))
 		a.orphan[q.S] = uint64(ref)
 		r.classes["append:"+kindNames[q.Kind]]++
+		if q.Kind == kGaugeHist {
+			r.gaugeSeen++
+		}
 	} else {
 		q.Err = tsdbx.Kind(err).String()
 		r.classes["append-error:"+q.Err]++
@@ -816,6 +820,24 @@ func (r *runner) doRestart(o hop) {
 			extra = e
 		}
 	}
+	// the same for bucket entries added in place by a replayed append of a gauge histogram
+	var bucketsHeld int64
+	for i := range after.ser {
+		if s := &after.ser[i]; s.LastKind != 0 {
+			bucketsHeld += int64(s.LastBuckets)
+		}
+	}
+	bextra := int64(0)
+	if r.gaugeSeen > 0 {
+		// every accepted gauge histogram can be widened in place by at most 8 entries (layouts span
+		// offsets 0..6), once per replay
+		if e := bucketsHeld - int64(after.c.NumHistBuckets); e >= 0 && e <= 8*r.gaugeSeen {
+			bextra = e
+		}
+	}
+	if bextra != 0 {
+		r.shapes["histogram-buckets-changed-by-append"] = true
+	}
 	if snapTotal > 0 {
 		r.shapes["snapshot-head-chunks-uncounted"] = true
 	}
@@ -827,7 +849,7 @@ func (r *runner) doRestart(o hop) {
 	r.trace(o, "RRestart", after, bad)
 	r.descs = append(r.descs, o)
 	r.lastWalk, r.haveWalk = gWalk(after, nil), true
-	r.steps = append(r.steps, fmt.Sprintf("(RRestart %s %s,\n    %s)", gWalk(after, snap), gs(extra), r.gObs(after)))
+	r.steps = append(r.steps, fmt.Sprintf("(RRestart %s %s %s,\n    %s)", gWalk(after, snap), gs(extra), gs(bextra), r.gObs(after)))
 	r.classes["op:restart"+note]++
 }
 
